@@ -41,7 +41,8 @@ def run(ctx):
         broken.append({"stage": "prove", "file": pres["failed"]["path"], "error": pres["failed"]["out"][-1500:]})
 
     quick = ctx.tier == "quick"
-    keys = F.c03_quick_keys() if quick else F.c03_thorough_keys(ctx.rng, 2500)
+    import random as _random    # fixed enumeration (see c02.py): independent of VERIF_SEED
+    keys = F.c03_quick_keys() if quick else F.c03_thorough_keys(_random.Random(K.ENUMERATION_SEED), 2500)
     built, rejected, skipped = K.build_members(keys, None, F.c03_member)
     built = built[:40] if quick else built[:700]
     members = []
